@@ -151,8 +151,12 @@ fn join_setsketch<I: Reg>(p: SetSketchParams, pname: &str, alphabet: &[u64]) -> 
 }
 
 fn join_superminhash<F: num::Float + rand_distr::uniform::SampleUniform + std::fmt::Debug + Send + Sync>(fname: &str, m: usize, alphabet: &[u64]) -> JoinOut {
-    let mk = || SuperMinHash::<F, u64, FnvHasher>::new(m, BuildHasherDefault::<FnvHasher>::default());
-    let bits = |s: &SuperMinHash<F, u64, FnvHasher>| -> Vec<f64> { s.get_hsketch().iter().map(|f| f.to_f64().unwrap()).collect() };
+    join_superminhash_h::<F, FnvHasher>(fname, m, alphabet)
+}
+
+fn join_superminhash_h<F: num::Float + rand_distr::uniform::SampleUniform + std::fmt::Debug + Send + Sync, H: std::hash::Hasher + Default>(fname: &str, m: usize, alphabet: &[u64]) -> JoinOut {
+    let mk = || SuperMinHash::<F, u64, H>::new(m, BuildHasherDefault::<H>::default());
+    let bits = |s: &SuperMinHash<F, u64, H>| -> Vec<f64> { s.get_hsketch().iter().map(|f| f.to_f64().unwrap()).collect() };
     let singles: Vec<Vec<f64>> = alphabet
         .iter()
         .map(|x| {
@@ -178,9 +182,16 @@ fn join_superminhash<F: num::Float + rand_distr::uniform::SampleUniform + std::f
             for ord in orders(&items) {
                 execs += 1;
                 let r = guarded_mut(|| {
+                    // both entry points: item-wise, and one slice call
                     let mut s = mk();
                     for x in &ord {
                         s.sketch(x).unwrap();
+                    }
+                    let mut t = mk();
+                    t.sketch_slice(&ord).unwrap();
+                    if bits(&t) != bits(&s) {
+                        // report the slice result: it is the one that departs from the join
+                        return bits(&t);
                     }
                     bits(&s)
                 });
@@ -581,6 +592,19 @@ pub fn run(ctx: &Ctx) -> i32 {
             details.push(json!({"part": "join", "sketcher": format!("SuperMinHash<{}> m={}", fname, m), "subsets": o.subsets, "executions": o.execs}));
         }
     }
+    // ---- join: SuperMinHash with the pass-through hasher on an alphabet that contains item 0 (hash 0)
+    {
+        let alpha0: Vec<u64> = (0..alphabet.len() as u64).collect();
+        for &m in &[1usize, 3, 8] {
+            let o = join_superminhash_h::<f64, probminhash::nohasher::NoHashHasher>("f64,NoHash", m, &alpha0);
+            execs += o.execs;
+            states += o.distinct;
+            if let Some((w, c)) = o.bad {
+                ctx.violation("join:SuperMinHash<f64,NoHash>", &w, c);
+            }
+            details.push(json!({"part": "join", "sketcher": format!("SuperMinHash<f64,NoHash> m={}", m), "subsets": o.subsets, "executions": o.execs}));
+        }
+    }
     // ---- join: SetSketch, three register types
     for (pname, p) in param_sets(ctx.quick()) {
         let outs = vec![("u16", join_setsketch::<u16>(p, &pname, &alphabet)), ("u32", join_setsketch::<u32>(p, &pname, &alphabet)), ("u8", join_setsketch::<u8>(p, &pname, &alphabet))];
@@ -665,7 +689,7 @@ pub fn run(ctx: &Ctx) -> i32 {
         "exhaustive": true,
         "evaluations": execs,
         "distinct_nontrivial": states,
-        "rule": "join: all non-empty subsets of a 10 (12) item alphabet (all orders for |S|<=4, four canonical orders above) against the position-wise min (SuperMinHash f32/f64, m in {1,2,5,16,(40)}) resp. max (SetSketcher u8/u16/u32, 5 (b,q) sets x 3-5 m) of the REAL single-item sketches, plus low_sketch <= min register; merge: ALL sequences up to depth 4 (5) over 18 ops (3 instances x {2 shared items, 1 own item, 1 overlapping burst} + 6 ordered merges) for 4 parameter sets x {u16,u8}, final state of every instance against a set model (merge = union), estimate monotone on the last op; commutativity/associativity/idempotence/merge=union/streaming-after-merge on all triples of a 16-set family incl. empty sets; refusal for 32 parameter pairs x {u16,u8 (overflowing)} registers differing in exactly one field (>=1e-6 relative) with receiver unchanged; distinct = distinct joined sketches",
+        "rule": "join: all non-empty subsets of a 10 (12) item alphabet (all orders for |S|<=4, four canonical orders above) against the position-wise min (SuperMinHash f32/f64, m in {1,2,5,16,(40)}, item-wise and through one slice call; also with the no-op hasher on an alphabet containing item 0) resp. max (SetSketcher u8/u16/u32, 5 (b,q) sets x 3-5 m) of the REAL single-item sketches, plus low_sketch <= min register; merge: ALL sequences up to depth 4 (5) over 18 ops (3 instances x {2 shared items, 1 own item, 1 overlapping burst} + 6 ordered merges) for 4 parameter sets x {u16,u8}, final state of every instance against a set model (merge = union), estimate monotone on the last op; commutativity/associativity/idempotence/merge=union/streaming-after-merge on all triples of a 16-set family incl. empty sets; refusal for 32 parameter pairs x {u16,u8 (overflowing)} registers differing in exactly one field (>=1e-6 relative) with receiver unchanged; distinct = distinct joined sketches",
         "merge_sequences": nseq,
         "merge_depth": depth,
         "details": details,
